@@ -685,7 +685,7 @@ class Bf3File:
             try:
                 cls.exec_bf2instrs(bf2_instrs, desc, comments)
             except UnsupportedBf2InstrError:
-                pass
+                bf2_fwdata[:] = []
             except (ValueError, IndexError, KeyError):
                 raise Bf3FileFormatError("Invalid BF2 Instruction")
             else:
